@@ -117,6 +117,24 @@ PROPS["C04"] = dict(
     assumptions=["publisher flow-controls against the healthy consumer only, so that consumer is never the one being dropped"],
 )
 
+PROPS["C05"] = dict(
+    bin="race", level="exploration", shards={"quick": 16, "thorough": 16},
+    timeout={"quick": 900, "thorough": 3400},
+    rule=("(1) concurrent histories: 3-7 client goroutines x 4-10 operations (Regist of a fresh stream / Unregist / Close of an already "
+          "registered one / Get) over 1-2 canonical paths written in 3-4 spellings each, with seeded delays at the regist and close hook "
+          "points; call/return recorded on one logical clock at the API boundary and checked with porcupine (partitioned by canonical path) "
+          "against a sequential registry model; plus quiescent-point checks (replaced stream closed or retire task posted, lookup never "
+          "returns a closed stream, Count equals live set); (2) forced orderings Regist x Regist (gate between load and store), "
+          "Unregist(retired) after Regist(successor), Close then Get; (3) sequential random histories (5-40 steps) with Get/Count/Infos "
+          "against the model after every step; (4) the idle-close decision for 6 audience kinds x 2 close reasons. Distinct by history shape"),
+    level_text=("Linearizability checking of recorded concurrent histories (porcupine) against a 10-line sequential model of the registry, "
+                "plus forced schedules and model equality at quiescent points"),
+    level_note="library level (media package); GetOrCreate races and the REST listing/DELETE are exercised in C20 / service-level scenarios",
+    technique="linearizability checking of recorded histories (porcupine v1.3.0, P-compositional by path) + hook-gated forced orderings + reference model",
+    assumptions=["each stream object is registered at most once (as the server does)",
+                 "the model demands the statement literally: Close/Unregist of the current holder makes lookups return nothing"],
+)
+
 # checks whose texts are kept as JSON (props_json/<ID>.json)
 import json as _json, os as _os, glob as _glob
 for _f in sorted(_glob.glob(_os.path.join(_os.path.dirname(_os.path.abspath(__file__)), "props_json", "C*.json"))):
